@@ -1,0 +1,125 @@
+//go:build verif
+
+package markdown
+
+// Contracts for the gvc verifier (/verif); compiled only with the build tag "verif".
+
+// ---------------------------------------------------------------------------------------------
+// Executable specification of one row of the bullet-list notation (byte level).
+
+// isIndentByte: ' ' or '\t'.
+func isIndentByte(b byte) bool { return b == ' ' || b == '\t' }
+
+// isBullet: one of the three list symbols.
+func isBullet(b byte) bool { return b == '-' || b == '*' || b == '+' }
+
+// indentFrom: number of consecutive indent bytes of row starting at i.
+//@ spec markdown.indentFrom
+//@   decreases len(row) - i
+func indentFrom(row string, i int) int {
+	if i < 0 || i >= len(row) || !isIndentByte(row[i]) {
+		return 0
+	}
+	return 1 + indentFrom(row, i+1)
+}
+
+// uniformTo: the first k bytes of row all equal row[0].
+//@ spec markdown.uniformTo
+//@   decreases k
+func uniformTo(row string, k int) bool {
+	if k <= 1 || k > len(row) {
+		return true
+	}
+	return row[k-1] == row[0] && uniformTo(row, k-1)
+}
+
+// trimLeftByte / trimRightByte: s without its leading / trailing bytes equal to b.
+//@ spec markdown.trimLeftByte
+//@   decreases len(s)
+func trimLeftByte(s string, b byte) string {
+	if len(s) == 0 || s[0] != b {
+		return s
+	}
+	return trimLeftByte(s[1:], b)
+}
+
+//@ spec markdown.trimRightByte
+//@   decreases len(s)
+func trimRightByte(s string, b byte) string {
+	if len(s) == 0 || s[len(s)-1] != b {
+		return s
+	}
+	return trimRightByte(s[:len(s)-1], b)
+}
+
+// specHeadingText: the name of a "# name" root row (row[0] == '#').
+func specHeadingText(row string) string {
+	return trimRightByte(trimLeftByte(trimLeftByte(row[1:], '#'), ' '), ' ')
+}
+
+// specIndent: the number of indent bytes before the bullet.
+func specIndent(row string) int { return indentFrom(row, 0) }
+
+// specUnit: the indentation unit in force after this row (learnt from the first indented row).
+func specUnit(spaces int, row string) int {
+	if spaces == 0 && specIndent(row) > 0 {
+		return specIndent(row)
+	}
+	return spaces
+}
+
+// specItemShape: a bullet follows a uniform indentation that agrees with the block's indent byte and unit.
+func specItemShape(sep string, spaces int, row string) bool {
+	k := specIndent(row)
+	if k >= len(row) || !isBullet(row[k]) || !uniformTo(row, k) {
+		return false
+	}
+	if k > 0 && sep != "" && (len(sep) != 1 || row[0] != sep[0]) {
+		return false
+	}
+	u := specUnit(spaces, row)
+	return u <= 1 || k%u == 0
+}
+
+// specItemText: the name exactly as written after the bullet (one separating space removed).
+func specItemText(row string) string {
+	k := specIndent(row)
+	rest := row[k+1:]
+	if len(rest) > 0 && rest[0] == ' ' {
+		return rest[1:]
+	}
+	return rest
+}
+
+// specDepth: nesting depth of the item (0 for an unindented item).
+func specDepth(spaces int, row string) int {
+	k := specIndent(row)
+	u := specUnit(spaces, row)
+	if k == 0 || u == 0 {
+		return k
+	}
+	return k / u
+}
+
+// allSpace(row): strings.TrimSpace(row) is empty (Unicode white space only); kept abstract.
+//@ logic allSpace(row string) bool
+
+//@ pred parserOK(p *Parser): p != nil && p.spaces >= 0 && (p.sep == "" || p.sep == " " || p.sep == "\t")
+
+//@ func markdown.Parser.Parse
+//@   assumed
+//@   requires st: parserOK(p)
+//@   modifies p.isSharpRoot, p.spaces, p.sep
+//@   ensures st': parserOK(p)
+//@   ensures class [C02,C12]: result1 == nil || result1 == ErrBlankLine || result1 == ErrEmptyText || result1 == ErrIncorrectFormat
+//@   ensures res [C12]: (result1 == nil) == (result0 != nil)
+//@   ensures fresh [C12]: result0 != nil ==> fresh(result0) && result0.hierarchy >= 1
+//@   ensures blank [C02,C15]: allSpace(row) ==> result1 == ErrBlankLine && p.isSharpRoot == old(p.isSharpRoot) && p.spaces == old(p.spaces) && p.sep == old(p.sep)
+//@   ensures nonblank [C02,C15]: !allSpace(row) ==> result1 != ErrBlankLine
+//@   ensures heading [C01,C15]: !allSpace(row) && len(row) > 0 && row[0] == '#' ==> p.isSharpRoot && p.spaces == old(p.spaces) && p.sep == old(p.sep) && (specHeadingText(row) == "" ==> result1 == ErrEmptyText) && (specHeadingText(row) != "" ==> result1 == nil && result0.hierarchy == 1 && result0.text == specHeadingText(row))
+//@   ensures reject [C02]: !allSpace(row) && len(row) > 0 && row[0] != '#' && !specItemShape(old(p.sep), old(p.spaces), row) ==> result1 == ErrIncorrectFormat
+//@   ensures empty [C02]: !allSpace(row) && len(row) > 0 && row[0] != '#' && specItemShape(old(p.sep), old(p.spaces), row) && specItemText(row) == "" ==> result1 == ErrEmptyText
+//@   ensures item [C01,C02,C15]: !allSpace(row) && len(row) > 0 && row[0] != '#' && specItemShape(old(p.sep), old(p.spaces), row) && specItemText(row) != "" ==> result1 == nil && result0.text == specItemText(row) && result0.hierarchy == specDepth(old(p.spaces), row) + 1 + (p.isSharpRoot ? 1 : 0) && p.isSharpRoot == old(p.isSharpRoot) && p.spaces == specUnit(old(p.spaces), row) && p.sep == (specIndent(row) == 0 ? "" : (old(p.sep) != "" ? old(p.sep) : row[0:1]))
+
+//@ func markdown.NewParser
+//@   ensures fresh: fresh(result) && parserOK(result) && !result.isSharpRoot && result.spaces == 0 && result.sep == ""
